@@ -18,6 +18,7 @@ import (
 	"encoding/json"
 	"errors"
 	"fmt"
+	"io"
 	"math/rand"
 	"os"
 	"os/exec"
@@ -48,6 +49,108 @@ type taskSpec struct {
 	DelayMs int  `json:"d"`           // maxDelay: -1 = one hour (never expires), 0 = pass 0 (documented: default), >0 ms
 	Dones   int  `json:"n,omitempty"` // Signal*: number of done() calls
 	Conc    bool `json:"c,omitempty"` // Signal*: call done() from concurrent goroutines
+	Err     int  `json:"e,omitempty"` // outcome 1: which value of the error dictionary the function returns (errKinds)
+	// UC: the function watches the context it is given (the module's): it returns when that is cancelled (module
+	// stop, shutdown) or after RunUs at the latest — a blocking call in flight while its module is stopped
+	UC bool `json:"uc,omitempty"`
+}
+
+// ---------------------------------------------------------------------------------------------
+// the error dictionary: values a microtask function may return. The property says "its error is returned to the
+// caller of the blocking variants": whatever the value is and whatever state the module is in.
+
+type typedNilErr struct{ s string }
+
+func (e *typedNilErr) Error() string {
+	if e == nil {
+		return "typed nil error"
+	}
+	return e.s
+}
+
+// claimsCanceledErr is an error of its own type that answers errors.Is(err, context.Canceled) through an Is method.
+type claimsCanceledErr struct{ tid int }
+
+func (e *claimsCanceledErr) Error() string        { return fmt.Sprintf("task %d stopped early", e.tid) }
+func (e *claimsCanceledErr) Is(target error) bool { return target == context.Canceled } //nolint:errorlint
+
+var errKinds = []string{"plain", "context.Canceled", "wraps-context.Canceled", "context.DeadlineExceeded", "wraps-context.DeadlineExceeded",
+	"modules.ErrCleanExit", "wraps-modules.ErrRestartNow", "typed-nil", "*modules.ModuleError(non-panic)", "errors.Join(plain,context.Canceled)",
+	"own-type-with-Is(context.Canceled)", "doubly-wrapped-context.Canceled"}
+
+func mkErr(kind, tid int) error {
+	switch kind {
+	case 1:
+		return context.Canceled
+	case 2:
+		return fmt.Errorf("task %d aborted: %w", tid, context.Canceled)
+	case 3:
+		return context.DeadlineExceeded
+	case 4:
+		return fmt.Errorf("task %d took too long: %w", tid, context.DeadlineExceeded)
+	case 5:
+		return modules.ErrCleanExit
+	case 6:
+		return fmt.Errorf("task %d: %w", tid, modules.ErrRestartNow)
+	case 7:
+		return (*typedNilErr)(nil)
+	case 8:
+		return &modules.ModuleError{Message: fmt.Sprintf("task %d failed", tid), ModuleName: "c15", TaskName: "t" + strconv.Itoa(tid), TaskType: "microtask", Severity: "error"}
+	case 9:
+		return errors.Join(fmt.Errorf("task %d failed", tid), context.Canceled)
+	case 10:
+		return &claimsCanceledErr{tid}
+	case 11:
+		return fmt.Errorf("task %d: %w", tid, fmt.Errorf("worker gone: %w", context.Canceled))
+	}
+	return fmt.Errorf("task %d failed", tid)
+}
+
+// drawErrKind: 35 % the plain error, otherwise any value of the dictionary.
+func drawErrKind(rng *rand.Rand) int {
+	if rng.Intn(100) < 35 {
+		return 0
+	}
+	return 1 + rng.Intn(len(errKinds)-1)
+}
+
+// outCode numbers what the function of a task does: 0 returns nil, 2 panics, 100+k returns value k of the dictionary.
+func outCode(t taskSpec) int {
+	if t.Out == 1 {
+		return 100 + t.Err%len(errKinds)
+	}
+	return t.Out
+}
+
+func outName(code int64) string {
+	switch {
+	case code == 0:
+		return "nil"
+	case code == 2:
+		return "the panic error of the task"
+	case code == 3:
+		return "errNoModule"
+	case code >= 100 && int(code-100) < len(errKinds):
+		return "the very error value the function returned (" + errKinds[code-100] + ")"
+	case code == 7:
+		return "a panic error of something else"
+	}
+	return "some other error"
+}
+
+// sameErr: is `got` the error the function returned? The very value — or, so that an implementation which adds
+// context around the function's error is not blamed, an error that has that value in its chain (errors.Is) and its
+// message in its text. (nil is never "the same" as a non-nil value, a typed nil included.)
+func sameErr(got, want error) (same bool) {
+	defer func() {
+		if recover() != nil { // uncomparable dynamic type, Error() of a foreign nil pointer
+			same = false
+		}
+	}()
+	if got == want { //nolint:errorlint // identity is the point
+		return true
+	}
+	return errors.Is(got, want) && strings.Contains(got.Error(), want.Error())
 }
 
 type forcing struct {
@@ -553,12 +656,14 @@ func modOf(t taskSpec) *modules.Module {
 	return mods[t.Mod%len(mods)]
 }
 
-func errCode(err error, want error, tid int) int64 {
+// errCode tells what the caller of a blocking variant got: 0 nil (the nil interface), 100+kind the very value the
+// function returned, 2 the panic error made from this task's panic value, 3 errNoModule, 7/8 anything else.
+func errCode(err error, want error, tid int, kind int) int64 {
 	switch {
 	case err == nil:
 		return 0
-	case err == want: //nolint:errorlint // identity is the point
-		return 1
+	case sameErr(err, want):
+		return int64(100 + kind%len(errKinds))
 	}
 	if ok, me := modules.IsPanic(err); ok {
 		if pv, ok := me.PanicValue.(panicVal); ok && pv.tid == tid {
@@ -611,16 +716,23 @@ func runScenario(sc *scenario) *runResult {
 	var running atomic.Int64 // functions / signalled sections executing right now (the harness's own gauge)
 	taskErrs := make([]error, len(sc.Tasks))
 	for i := range taskErrs {
-		taskErrs[i] = fmt.Errorf("task %d failed", i)
+		taskErrs[i] = mkErr(sc.Tasks[i].Err%len(errKinds), i)
 	}
 	mkFn := func(tid int, t taskSpec, counted bool) func(context.Context) error {
-		return func(context.Context) error {
+		return func(ctx context.Context) error {
 			if counted {
 				defer fnWg.Done()
 			}
 			rec.h("fnbegin", tid, us())
 			running.Add(1)
-			sleepUs(t.RunUs)
+			if t.UC && ctx != nil {
+				select {
+				case <-ctx.Done():
+				case <-time.After(time.Duration(t.RunUs) * time.Microsecond):
+				}
+			} else {
+				sleepUs(t.RunUs)
+			}
 			running.Add(-1)
 			rec.h("fnend", tid, us())
 			lastEnd.Store(time.Now().UnixNano())
@@ -653,7 +765,7 @@ func runScenario(sc *scenario) *runResult {
 					default:
 						err = m.RunHighPriorityMicroTask(name, mkFn(tid, t, false))
 					}
-					rec.h("ret", tid, errCode(err, taskErrs[tid], tid))
+					rec.h("ret", tid, errCode(err, taskErrs[tid], tid, t.Err))
 				case 1:
 					if m != nil {
 						fnWg.Add(1)
@@ -1096,7 +1208,7 @@ func canon(sc *scenario, res *runResult) []string {
 		case "moddec":
 			out := 0
 			if tid < len(sc.Tasks) && sc.Tasks[tid].Var != 2 {
-				out = sc.Tasks[tid].Out
+				out = outCode(sc.Tasks[tid])
 			}
 			lines = append(lines, fmt.Sprintf("t %d moddec %d %d", tid, out, e.a))
 			if tid < len(sc.Tasks) && sc.Tasks[tid].Var == 2 {
@@ -1390,6 +1502,14 @@ func monitor(c hxlib.Case, outs []string) []hxlib.Violation {
 					}
 					sort.Ints(ids)
 					limitWhat = fmt.Sprintf("limit %d, no shutdown, no high-priority microtask active, no max delay expired (class %s), yet %d medium/low microtasks execute at once: tasks %v", lim, sc.Class, len(running), ids)
+					if t.DelayMs != 0 {
+						md := "never (1 h)"
+						if t.DelayMs > 0 {
+							md = fmt.Sprintf("%d ms", t.DelayMs)
+						}
+						limitWhat += fmt.Sprintf("; the last to start, task %d (%s priority, %s variant), was submitted with max delay %s and started %d ms after its call while all slots were taken",
+							tid, []string{"medium", "low", "high"}[t.Prio], []string{"Run", "Start", "Signal"}[t.Var], md, (a-callAt[tid])/1000)
+					}
 				}
 			}
 		case "fnend":
@@ -1401,12 +1521,17 @@ func monitor(c hxlib.Case, outs []string) []hxlib.Violation {
 		case "ret":
 			delete(highActive, tid)
 			if t.Var == 0 {
-				want := int64(t.Out)
+				want := int64(outCode(t))
 				if t.Mod < 0 {
 					want = 3
 				}
 				if a != want {
-					add(sigErr, fmt.Sprintf("task %d (%v): function outcome %d (0 nil, 1 its error, 2 panic, 3 errNoModule) but the caller got %d", tid, t, want, a))
+					what := map[int]string{0: "returned nil", 1: "returned an error: " + errKinds[t.Err%len(errKinds)], 2: "panicked"}[t.Out]
+					if t.Mod < 0 {
+						what = "was not run (nil module)"
+					}
+					add(sigErr, fmt.Sprintf("task %d (%+v): blocking variant; the function %s, so the caller must get %s — it got %s (codes %d / %d)",
+						tid, t, what, outName(want), outName(a), want, a))
 				}
 			}
 		}
@@ -1466,6 +1591,9 @@ func genScenario(r *hxlib.Run, class string) *scenario {
 		}
 		if t.Var != 2 {
 			t.Out = []int{0, 0, 0, 1, 1, 2}[rng.Intn(6)]
+			if t.Out == 1 {
+				t.Err = drawErrKind(rng)
+			}
 		}
 		if runMax > 0 {
 			t.RunUs = rng.Intn(runMax + 1)
@@ -1516,6 +1644,14 @@ func genScenario(r *hxlib.Run, class string) *scenario {
 			total += t.RunUs + t.PreUs
 		}
 		sc.ShutAtUs = rng.Intn(total/(2*nSubs) + 200)
+		// blocking calls in flight when the shutdown stops their module: the function sees the cancelled context
+		// and returns its error then (or after its run time)
+		for i := range sc.Tasks {
+			if sc.Tasks[i].Var != 2 && rng.Intn(3) == 0 {
+				sc.Tasks[i].UC = true
+				sc.Tasks[i].RunUs += rng.Intn(3000)
+			}
+		}
 	}
 	sc.Subs = make([][]int, nSubs)
 	for i := range sc.Tasks {
@@ -1568,6 +1704,68 @@ func floodScenario(r *hxlib.Run, prio int) *scenario {
 	return sc
 }
 
+// longDelayScenario: class long-delay-held. All slots are held — for longer than both *default* max delays (1 s
+// medium, 3 s low) — by microtasks that got their clearance (max delay: never), while medium- and low-priority
+// microtasks of every variant that were submitted with an *explicit* max delay of 10..20 s wait. No shutdown, no
+// high-priority task, and no maximum delay expires (the waiters are admitted after ~3.5 s, far below 40 % of their
+// delay): nothing may start before a slot frees. Each of the four timers of get*PriorityClearance is exercised: the
+// wait-phase timers by the ordinary waiters, the enqueue-phase timers by the `flood` variant, in which more requests
+// than the clearance queue holds are submitted to each priority, so that the surplus sits in the enqueue select.
+// The scenario takes 3.5 s of real time and runs in a child process next to the other scenarios.
+func longDelayScenario(r *hxlib.Run, flood bool) *scenario {
+	rng := r.Rng
+	sc := &scenario{Class: "long-delay-held", Lim: 2 + rng.Intn(2), Seed: rng.Int63(), Force: forcing{Prob: map[string]int{}, MaxUs: 100}}
+	hold := 3350000 + rng.Intn(200000)
+	for i := 0; i < sc.Lim; i++ { // the blockers
+		t := taskSpec{Prio: rng.Intn(2), Var: rng.Intn(3), Mod: i % 3, RunUs: hold + rng.Intn(50000), DelayMs: -1}
+		if t.Var == 2 {
+			t.Dones = 1
+		}
+		sc.Tasks = append(sc.Tasks, t)
+		sc.Subs = append(sc.Subs, []int{i})
+	}
+	waiter := func(prio, v int) taskSpec {
+		t := taskSpec{Prio: prio, Var: v, Mod: rng.Intn(3), RunUs: 200 + rng.Intn(1800), DelayMs: 10000 + rng.Intn(10001)}
+		if v == 2 {
+			t.Dones = 1 + rng.Intn(2)
+		} else {
+			t.Out = []int{0, 0, 1, 2}[rng.Intn(4)]
+			if t.Out == 1 {
+				t.Err = drawErrKind(rng)
+			}
+		}
+		return t
+	}
+	n := 3 + rng.Intn(4)
+	for i := 0; i < n; i++ {
+		prio := rng.Intn(2)
+		if i < 2 {
+			prio = 1 - i // at least one of each priority: the low default (3 s) is the longer one
+		}
+		t := waiter(prio, rng.Intn(3))
+		t.PreUs = 30000 + rng.Intn(20000) // the blockers get their clearances first
+		sc.Tasks = append(sc.Tasks, t)
+		sc.Subs = append(sc.Subs, []int{len(sc.Tasks) - 1})
+	}
+	if flood {
+		for fp := 0; fp < 2; fp++ { // each priority has a queue and an enqueue-phase timer of its own
+			var sub []int
+			for i := modules.VerifMicroTaskQueueCap() + 30 + rng.Intn(40); i > 0; i-- {
+				t := waiter(fp, 1) // Start*: every request waits in a goroutine of its own
+				t.RunUs = rng.Intn(30)
+				t.DelayMs = 15000 + rng.Intn(5001)
+				if len(sub) == 0 {
+					t.PreUs = 60000
+				}
+				sc.Tasks = append(sc.Tasks, t)
+				sub = append(sub, len(sc.Tasks)-1)
+			}
+			sc.Subs = append(sc.Subs, sub)
+		}
+	}
+	return sc
+}
+
 // lifeScenario builds a module lifecycle scenario (run in a child process with module management on).
 //
 // modstop: the limit is used up by long-running microtasks of other modules (max delay: never), no shutdown, no
@@ -1593,7 +1791,10 @@ func lifeScenario(r *hxlib.Run, class string) *scenario {
 	task := func(prio, mod, runUs int) taskSpec { // max delay: never
 		t := taskSpec{Prio: prio, Var: rng.Intn(3), Mod: mod, RunUs: runUs, DelayMs: -1}
 		if t.Var != 2 {
-			t.Out = []int{0, 0, 1, 2}[rng.Intn(4)]
+			t.Out = []int{0, 0, 1, 1, 2}[rng.Intn(5)]
+			if t.Out == 1 {
+				t.Err = drawErrKind(rng)
+			}
 		} else {
 			t.Dones = 1 + rng.Intn(3)
 			if t.Conc = rng.Intn(3) == 0; t.Conc {
@@ -1601,6 +1802,12 @@ func lifeScenario(r *hxlib.Run, class string) *scenario {
 			}
 		}
 		return t
+	}
+	// inflight: a blocking Run* call whose function watches the module context and returns an error of the dictionary
+	// when the context is cancelled (RunUs at the latest) — in flight when the stop of its module begins, or submitted
+	// to a module whose context is cancelled already
+	inflight := func(prio, mod, capUs int) taskSpec {
+		return taskSpec{Prio: prio, Var: 0, Mod: mod, RunUs: capUs, DelayMs: -1, Out: 1, Err: drawErrKind(rng), UC: true}
 	}
 	switch class {
 	case "modstop":
@@ -1623,11 +1830,18 @@ func lifeScenario(r *hxlib.Run, class string) *scenario {
 			if i == own {
 				other = b
 			}
-			op("sub", addSub(addTask(task(rng.Intn(2), other, hold+rng.Intn(10000)))))
+			t := task(rng.Intn(2), other, hold+rng.Intn(10000))
+			if i == own && rng.Intn(2) == 0 {
+				t = inflight(rng.Intn(2), b, hold+rng.Intn(10000)) // returns its error when the stop cancels the context
+			}
+			op("sub", addSub(addTask(t)))
 		}
 		op("waitrun", sc.Lim)
 		mk := func() int {
 			t := task(rng.Intn(2), b, 500+rng.Intn(3000))
+			if rng.Intn(3) == 0 { // a blocking call on the stopping / stopped module (its context is cancelled)
+				t = inflight(rng.Intn(2), b, 500+rng.Intn(3000))
+			}
 			return addTask(t)
 		}
 		n := 1 + rng.Intn(3)
@@ -1670,7 +1884,13 @@ func lifeScenario(r *hxlib.Run, class string) *scenario {
 			for i := 0; i < n; i++ {
 				op("sub", addSub(addTask(task(rng.Intn(3), b, over()))))
 			}
-			op("waitrun", n)
+			// blocking calls of every priority in flight when the stop begins: they return their error once the
+			// context is cancelled (the stop flag is set by then), the others outlive the timeout
+			k := rng.Intn(3)
+			for i := 0; i < k; i++ {
+				op("sub", addSub(addTask(inflight(rng.Intn(3), b, over()))))
+			}
+			op("waitrun", n+k)
 		}
 		if how != 0 { // started by the stop function (a Run*/Signal* variant keeps the stop function itself busy)
 			for i := 0; i < n; i++ {
@@ -1804,11 +2024,22 @@ func runInChild(sc *scenario) ([]string, error) {
 	ctx, cancel := context.WithTimeout(context.Background(), 90*time.Second)
 	defer cancel()
 	cmd := exec.CommandContext(ctx, os.Args[0])
-	cmd.Env = append(os.Environ(), "HX_C15_CHILD="+string(b))
+	if len(b) > 60000 { // too long for an environment variable: through stdin
+		cmd.Env = append(os.Environ(), "HX_C15_CHILD=@stdin")
+		cmd.Stdin = strings.NewReader(string(b))
+	} else {
+		cmd.Env = append(os.Environ(), "HX_C15_CHILD="+string(b))
+	}
 	cmd.Stderr = nil
 	var eb strings.Builder
 	cmd.Stderr = &eb
 	out, err := cmd.Output()
+	if err != nil && raceOnlyExit(err, eb.String(), string(out)) {
+		// thorough tier (-race build): the race detector reported a data race and made the child exit with its
+		// status 66 *after* the scenario had run to its end and the whole trace was written. C15 states nothing about
+		// data races; the trace is used like any other and the report is kept as a measured number (see notes).
+		err = nil
+	}
 	if err != nil {
 		msg := ""
 		for _, l := range strings.Split(eb.String(), "\n") {
@@ -1831,9 +2062,49 @@ func runInChild(sc *scenario) ([]string, error) {
 	return lines, nil
 }
 
+// raceOnlyExit: did the child fail only because the race detector (thorough tier) set its exit status, with the
+// trace complete? The racing sites are recorded in the evidence (Extra).
+func raceOnlyExit(err error, stderr, stdout string) bool {
+	var ee *exec.ExitError
+	if !errors.As(err, &ee) || ee.ExitCode() != 66 || !strings.Contains(stderr, "WARNING: DATA RACE") || !strings.Contains(stdout, "\nTRACE end ") {
+		return false
+	}
+	// the two racing accesses: first frame after "… at 0x… by goroutine N:" of each report
+	var sites []string
+	ls := strings.Split(stderr, "\n")
+	for i, l := range ls {
+		if (strings.HasPrefix(l, "Read at ") || strings.HasPrefix(l, "Write at ") || strings.HasPrefix(l, "Previous read at ") ||
+			strings.HasPrefix(l, "Previous write at ") || strings.HasPrefix(l, "Atomic ") || strings.HasPrefix(l, "Previous atomic ")) && i+1 < len(ls) {
+			sites = append(sites, strings.Fields(l)[0]+":"+strings.TrimSpace(strings.TrimSuffix(strings.TrimSpace(ls[i+1]), "()")))
+		}
+	}
+	key := strings.Join(sites, " / ")
+	if len(key) > 400 {
+		key = key[:400]
+	}
+	extraMu.Lock()
+	extra["data_race_reports_in_child_processes(not_part_of_C15)"] = toInt(extra["data_race_reports_in_child_processes(not_part_of_C15)"]) + 1
+	m, _ := extra["data_race_sites"].(map[string]int)
+	if m == nil {
+		m = map[string]int{}
+		extra["data_race_sites"] = m
+	}
+	m[key]++
+	extraMu.Unlock()
+	return true
+}
+
 func childMain() {
 	var sc scenario
-	if err := json.Unmarshal([]byte(os.Getenv("HX_C15_CHILD")), &sc); err != nil {
+	src := []byte(os.Getenv("HX_C15_CHILD"))
+	if string(src) == "@stdin" {
+		var err error
+		if src, err = io.ReadAll(os.Stdin); err != nil {
+			fmt.Println("child: stdin:", err)
+			os.Exit(3)
+		}
+	}
+	if err := json.Unmarshal(src, &sc); err != nil {
 		fmt.Println("child: bad scenario:", err)
 		os.Exit(3)
 	}
@@ -1873,6 +2144,49 @@ func gen(r *hxlib.Run, emit func(hxlib.Case)) {
 	}
 	stop := false
 	lifeBroken := false
+	var emitLines func(sc *scenario, lines []string)
+	// scenarios that need seconds of real time (class long-delay-held) run in child processes of their own next to
+	// everything else; their traces are emitted as they arrive (always by this goroutine)
+	type asyncRes struct {
+		sc    *scenario
+		lines []string
+	}
+	asyncCh := make(chan asyncRes, 64)
+	asyncOut := 0
+	var asyncSem chan struct{}
+	startAsync := func(sc *scenario) {
+		if asyncSem == nil {
+			asyncSem = make(chan struct{}, 3) // at most three such children at a time
+		}
+		asyncOut++
+		go func() {
+			asyncSem <- struct{}{}
+			lines, err := runInChild(sc)
+			<-asyncSem
+			if err != nil {
+				b, _ := json.Marshal(sc)
+				lines = []string{"scn " + string(b), "h crash -1 0 " + strings.ReplaceAll(err.Error(), " ", "_")}
+			}
+			asyncCh <- asyncRes{sc, lines}
+		}()
+	}
+	collectAsync := func(block bool) {
+		for asyncOut > 0 {
+			if block {
+				a := <-asyncCh
+				asyncOut--
+				emitLines(a.sc, a.lines)
+				continue
+			}
+			select {
+			case a := <-asyncCh:
+				asyncOut--
+				emitLines(a.sc, a.lines)
+			default:
+				return
+			}
+		}
+	}
 	emitScn := func(sc *scenario) {
 		if stop {
 			return
@@ -1908,6 +2222,9 @@ func gen(r *hxlib.Run, emit func(hxlib.Case)) {
 				}
 			}
 		}
+		emitLines(sc, lines)
+	}
+	emitLines = func(sc *scenario, lines []string) {
 		if d := os.Getenv("HX_C15_DUMP"); d != "" { // debugging aid: every trace as a file
 			dumpN++
 			_ = os.WriteFile(fmt.Sprintf("%s/%04d-%s.txt", d, dumpN, sc.Class), []byte(strings.Join(lines, "\n")+"\n"), 0o644)
@@ -1938,6 +2255,28 @@ func gen(r *hxlib.Run, emit func(hxlib.Case)) {
 		emitScn(floodScenario(r, 1))
 		return
 	}
+	if f := os.Getenv("HX_C15_SCN"); f != "" { // debugging aid: run the scenario of a file (the JSON of a `scn` line) 20 times
+		b, err := os.ReadFile(f)
+		var sc scenario
+		if err == nil {
+			err = json.Unmarshal(b, &sc)
+		}
+		if err != nil {
+			emit(hxlib.Case{Lines: []string{"boot-failed " + err.Error()}, Kind: "boot"})
+			return
+		}
+		for i := 0; i < 20; i++ {
+			c := sc
+			emitScn(&c)
+		}
+		return
+	}
+	if os.Getenv("HX_C15_ONLY") == "ld" { // debugging aid
+		startAsync(longDelayScenario(r, false))
+		startAsync(longDelayScenario(r, true))
+		collectAsync(true)
+		return
+	}
 	if os.Getenv("HX_C15_ONLY") == "life" { // debugging aid
 		for i := 0; i < 12; i++ {
 			emitScn(lifeScenario(r, "modstop"))
@@ -1951,6 +2290,10 @@ func gen(r *hxlib.Run, emit func(hxlib.Case)) {
 			{Prio: 1, Var: 2, Mod: 1, RunUs: 3000, Dones: 1}, {Prio: 0, Var: 2, Mod: 2, RunUs: 3000, Dones: 3, Conc: true},
 			{Prio: 1, Var: 2, Mod: 1, RunUs: 3000, Dones: 1}, {Prio: 0, Var: 2, Mod: 0, RunUs: 3000, Dones: 1}},
 		Subs: [][]int{{0}, {1}, {2}, {3}, {4}, {5}}})
+	// the long-delay scenarios start now and run (3.5 s of real time each, three at a time) while the rest goes on
+	for i, n := 0, r.Budget(2, 12); i < n; i++ {
+		startAsync(longDelayScenario(r, i%2 == 1))
+	}
 	deadline := time.Now().Add(time.Duration(r.Budget(75, 720)) * time.Second)
 	nScn := r.Budget(1800, 12000)
 	floods := r.Budget(2, 6)
@@ -1967,6 +2310,7 @@ func gen(r *hxlib.Run, emit func(hxlib.Case)) {
 			class = "expiry"
 		}
 		emitScn(genScenario(r, class))
+		collectAsync(false)
 		if i%60 == 3 && nilstarts > 0 {
 			nilstarts--
 			emitScn(genScenario(r, "nilstart"))
@@ -1989,6 +2333,7 @@ func gen(r *hxlib.Run, emit func(hxlib.Case)) {
 			r.Count(fmt.Sprintf("flood:prio%d", floods%2))
 		}
 	}
+	collectAsync(true)
 }
 
 func toInt(v any) int {
@@ -2005,7 +2350,7 @@ func main() {
 	}
 	hxlib.Main(&hxlib.Harness{
 		Prop:     "C15",
-		Rule:     "a case is one scenario (limit 2..8 or below the minimum, 1..16 submitting goroutines, 1..120 microtasks of every priority and variant incl. nil module, run times 0..3ms, nil/error/panic outcomes, 1..4 done() calls sequential or concurrent, max delays never/default/1..3ms, forced delays at the verif yield points, shutdown in a child process, queue flood; module lifecycle scenarios in child processes with module management: class modstop = the limit used up by long microtasks (one of them possibly of the stopping module), then medium/low microtasks submitted by the stop function of a stopping module and/or from outside to a stopping or stopped-and-not-restarted module, restart, more traffic; class stoptmo = stop timeout 50..100 ms, microtasks of any priority/variant running before the stop or started by the stop function outlive it, optional restart while they are in flight, quiescence, a further stop of the idle module under a 3 s timeout, restart, optional shutdown) executed on the real scheduler; its hook trace is replayed through the Lean model (acceptor: global counter and each module's counter compared at every bracketed operation, every task and every module followed individually, the stop check's read of the module counter compared with the model) and the monitor checks limit / exactly-once / returned error / zero counters (at the end and at every mid-scenario quiescence) / settled scheduler / module stops and shutdown not held up on the harness's own observations; non-trivial = at least two tasks and at least one clearance granted (or expiries); distinct = different scenario or different interleaving (hash of the whole trace)",
+		Rule:     "a case is one scenario (limit 2..8 or below the minimum, 1..16 submitting goroutines, 1..120 microtasks of every priority and variant incl. nil module, run times 0..3ms, nil/error/panic outcomes, 1..4 done() calls sequential or concurrent, max delays never/default/1..3ms, forced delays at the verif yield points, shutdown in a child process (a third of its Run*/Start* functions watch the module context and return when the shutdown cancels it), queue flood; error outcomes draw their value from a dictionary of 12 (plain, context.Canceled, errors wrapping it once/twice/joined, context.DeadlineExceeded plain and wrapped, modules.ErrCleanExit, wrapped modules.ErrRestartNow, typed nil pointer, non-panic *modules.ModuleError, own type with an Is method claiming context.Canceled) and the caller of a blocking variant must get that very value (or an error that has it in its chain and its message in its text); class long-delay-held (child processes running next to the rest, 3.5 s of real time each): all slots held for 3.35..3.6 s — longer than both default max delays — while 3..6 medium/low microtasks of every variant submitted with explicit max delays of 10..20 s wait (every other one additionally with queue capacity + 30..70 Start* requests of each priority, so that the surplus waits in the enqueue phase): nothing may start before a slot frees; module lifecycle scenarios in child processes with module management: class modstop = the limit used up by long microtasks (one of them possibly of the stopping module — a blocking call that returns a dictionary error when the stop cancels its context), then medium/low microtasks submitted by the stop function of a stopping module and/or from outside to a stopping or stopped-and-not-restarted module, restart, more traffic; class stoptmo = stop timeout 50..100 ms, microtasks of any priority/variant running before the stop or started by the stop function outlive it, 0..2 blocking Run* calls of any priority in flight when the stop begins return a dictionary error once their context is cancelled, optional restart while they are in flight, quiescence, a further stop of the idle module under a 3 s timeout, restart, optional shutdown) executed on the real scheduler; its hook trace is replayed through the Lean model (acceptor: global counter and each module's counter compared at every bracketed operation, every task and every module followed individually, the stop check's read of the module counter compared with the model) and the monitor checks limit / exactly-once / returned error / zero counters (at the end and at every mid-scenario quiescence) / settled scheduler / module stops and shutdown not held up on the harness's own observations; non-trivial = at least two tasks and at least one clearance granted (or expiries); distinct = different scenario or different interleaving (hash of the whole trace)",
 		Generate: gen,
 		NewExec:  func(*hxlib.Run) hxlib.Exec { return execT{} },
 		Monitor:  monitor,
